@@ -2162,7 +2162,7 @@ MANIFEST = {
     "design_ref": "DESIGN.md 4/C02",
 }
 FINDINGS = [
-    {"status": "fixed", "key": "extend:admitted-unproved:wrong-conclusion", "commit": "fixes/C02-6.patch",
+    {"status": "fixed", "key": "extend:admitted-unproved:wrong-conclusion", "commit": "e84e272",
      "what": "after a theorem name was given a new statement, get_theorem kept serving the cached schematic version of the OLD one: "
              "checked_extend([a: |- p0, b: |- p0 by theorem a, a: |- p1, c: |- p0 by theorem a]) admitted c as proved"},
     {"status": "fixed", "key": "accepted:cites-enclosing-item", "commit": "e77df27",
